@@ -347,6 +347,9 @@ func explore(c *vk.Ctx, sc Scenario, preempt, sw int) {
 		case x.Diverged != "":
 			c.Violation("harness/divergence", w, x.Diverged)
 			return true
+		case x.Hung != "":
+			c.Violation("hang/"+sc.Name, w, x.Hung)
+			return false
 		case x.Deadlock != "":
 			c.Violation("deadlock/"+sc.Name, w, x.Deadlock)
 			return true
